@@ -76,3 +76,19 @@ Proof.
   intros H. unfold mon_k'.
   step_cases s H; unfold sink_finish; cbn in *; subst; split_goal_ifs; cbn; repeat split; try reflexivity; try congruence.
 Qed.
+
+(* a frame call that returns no frame (Device_Ok, zero bytes) is not a frame: it is made on a running camera by the source thread,
+   consumes no frame number, no hardware id, and leaves the queue and every log as they were -- the source simply asks again *)
+Lemma empty_poll_neutral s a i s' :
+  step_stream s a (DGetEmpty i) = Some s' ->
+  a = ASrc /\ cam s = Some i /\ cam_st s = HRunning /\ s_pc s' = SLoop /\
+  iframe s' = iframe s /\ cam_next s' = cam_next s /\ log s' = log s /\ delivered s' = delivered s /\ stored s' = stored s /\
+  dropped s' = dropped s.
+Proof.
+  intros H. destruct a; cbn in H; try discriminate H. unfold guard in H.
+  match type of H with (if ?b then _ else _) = _ => destruct b eqn:E end; [|discriminate H].
+  inversion H; subst; clear H. repeat (apply andb_true_iff in E; destruct E as [E ?]).
+  repeat split; try reflexivity.
+  - apply optN_eqb_true; assumption.
+  - destruct (cam_st s); cbn in *; congruence.
+Qed.
